@@ -1020,8 +1020,12 @@ class Context(MetadataContextMixin, object):
         if self.query is not None:
             self.enable_store_metadata = True
             self.debug(f"Subquery {query} called from {self.query.encode()}")
+            # a sub-query (link argument, evaluation started by a command) uses the cache of the running evaluation
+            sub_cache = cache if cache is not None else self._evaluation_cache
+            if input_value_specified or isinstance(sub_cache, NoCache):
+                sub_cache = None
             state = self.child_context().evaluate(
-                query, store_key=store_key, store_to=store_to, input_value=input_value, input_value_specified=input_value_specified
+                query, cache=sub_cache, store_key=store_key, store_to=store_to, input_value=input_value, input_value_specified=input_value_specified
             )
             if not isinstance(query, str):
                 query = query.encode()
